@@ -1,6 +1,7 @@
 (* Props/C01.v — conversions preserve the tensor. Only statements, `exact`, Print Assumptions. *)
-From Coq Require Import List Arith Bool ZArith.
-From PV Require Import Base.Index Np.Array Model.Sparse.
+From Coq Require Import List Arith Bool ZArith Ring.
+From PV Require Import Base.Index Base.Perm Base.Sum Np.Array Model.Sparse Model.Repr Model.C07Ops Model.C01Conv
+  Proofs.C01Proofs Proofs.C01Kruskal Proofs.C01Tucker.
 Import ListNotations.
 
 Section C01.
@@ -39,3 +40,129 @@ Example C01_example :
   to_sptensor 0%Z (Z.eqb 0) T = mkSp [2; 3] [[1; 0]; [0; 1]; [1; 2]] [5; 7; 9]%Z
   /\ full 0%Z (to_sptensor 0%Z (Z.eqb 0) T) = T.
 Proof. split; reflexivity. Qed.
+
+(* ---------------------------------------------------------------------------------------------------------
+   Matricisation, Kruskal / sum to dense (models in Model/C01Conv.v).
+   [pick 0 r s] is numpy's s[r]; tm_pos s r c i = [sub2ind s[r] i[r]; sub2ind s[c] i[c]] is the matrix position of
+   tensor entry i; den_tenmat / den_sptenmat read the matrix there. *)
+Section C01conv.
+Variable V : Type.
+Variables (v0 v1 : V) (vadd vmul vsub : V -> V -> V) (vopp : V -> V) (isz : V -> bool).
+Hypothesis Vring : ring_theory v0 v1 vadd vmul vsub vopp (@eq V).
+
+(* every ordered partition (r, c) of the modes (either side may be empty): the matrix has Π s[r] rows and Π s[c] columns,
+   entry (sub2ind s[r] i[r], sub2ind s[c] i[c]) is T[i], and to_tensor returns the identical tensor *)
+Theorem C01_tenmat : forall (T : dense V) r c, wf_dense T -> is_perm (r ++ c) (length (dshape T)) ->
+  exists M, to_tenmat v0 T r c = Some M /\ tm_r M = r /\ tm_c M = c /\ tm_tshape M = dshape T /\
+    wf_dense (tm_data M) /\ dshape (tm_data M) = [size (pick 0 r (dshape T)); size (pick 0 c (dshape T))] /\
+    (forall i, inb (dshape T) i = true ->
+       inb (dshape (tm_data M)) (tm_pos (dshape T) r c i) = true /\ den_tenmat v0 M i = den_dense v0 T i) /\
+    tenmat_to_tensor v0 M = T.
+Proof. exact (to_tenmat_correct v0). Qed.
+
+(* the request forms (rdims only, cdims only, both, and the fc / bc / t conventions for a single row mode) all produce
+   an ordered partition, so C01_tenmat / C01_sptenmat apply to them *)
+Theorem C01_request_forms : forall N rd cd cy, request_ok N rd cd ->
+  exists r c, gather_wrap_dims N rd cd cy = Some (r, c) /\ is_perm (r ++ c) N /\
+    (forall r0 c0, rd = Some r0 -> cd = Some c0 -> r = r0 /\ c = c0) /\
+    (forall c0, rd = None -> cd = Some c0 -> c = c0) /\
+    (forall r0, rd = Some r0 -> cd = None -> cy = None \/ length r0 <> 1 -> r = r0) /\
+    (forall m, rd = Some [m] -> cd = None -> cy = Some CycT -> c = [m]) /\
+    (forall m k, rd = Some [m] -> cd = None -> cy = Some k -> k <> CycT -> r = [m]).
+Proof. exact gather_wrap_dims_partition. Qed.
+
+(* sparse matricisation: same position law for every in-bounds coordinate list; values and nnz kept, triples in bounds,
+   well-formedness preserved; full() of the sptenmat is the tenmat of the tensor; to_sptensor returns the identical object *)
+Theorem C01_sptenmat : forall (S : sparse V) r c, is_perm (r ++ c) (length (sshape S)) ->
+  Forall (fun j => inb (sshape S) j = true) (ssubs S) ->
+  exists M, to_sptenmat S r c = Some M /\ stm_r M = r /\ stm_c M = c /\ stm_tshape M = sshape S /\
+    stm_vals M = svals S /\ length (stm_subs M) = nnz S /\
+    Forall (fun rc => inb (stm_shape M) rc = true) (stm_subs M) /\
+    (wf_sp isz S -> wf_sp isz (stm_sp M)) /\
+    (forall i, inb (sshape S) i = true -> den_sptenmat v0 M i = den_sp v0 S i) /\
+    (forall i, inb (sshape S) i = true -> den_tenmat v0 (sptenmat_full v0 M) i = den_sp v0 S i) /\
+    sptenmat_to_sptensor M = S.
+Proof. exact (to_sptenmat_correct v0 isz). Qed.
+
+(* Kruskal -> dense: the Khatri-Rao algorithm (two reversed Khatri-Rao products, weights, matrix product, F-order reshape)
+   yields den_k for EVERY split point, any rank (0 included), any number >= 2 of modes *)
+Theorem C01_kruskal_any_split : forall (K : ktensor V) isplit,
+  rows_ok V (krank K) (kfactors K) -> 0 < isplit < length (kfactors K) ->
+  exists D, ktensor_full_at v0 vadd vmul K isplit = Some D /\ wf_dense D /\ dshape D = kshape K /\
+    forall i, den_dense v0 D i = den_k v0 v1 vadd vmul K i.
+Proof. exact (ktensor_full_at_correct V v0 v1 vadd vmul vsub vopp Vring). Qed.
+
+(* ... and with the split point the code chooses (min_split_dims) *)
+Theorem C01_kruskal : forall K : ktensor V, rows_ok V (krank K) (kfactors K) -> 2 <= length (kfactors K) ->
+  exists D, ktensor_full_impl v0 vadd vmul K = Some D /\ wf_dense D /\ dshape D = kshape K /\
+    (forall i, den_dense v0 D i = den_k v0 v1 vadd vmul K i) /\
+    D = ktensor_full_spec v0 v1 vadd vmul K.
+Proof. exact (ktensor_full_correct V v0 v1 vadd vmul vsub vopp Vring). Qed.
+
+(* Tucker -> dense: multiplying the core by U_0, U_1, ... mode by mode (each product defined on subscripts:
+   Y[i] = sum_j U[i_n, j] X[i with n := j]) yields den_t; result well-formed with shape (rows of U_n)_n *)
+Theorem C01_tucker : forall T : ttensor V, wf_dense (tcore T) -> length (dshape (tcore T)) = length (tfactors T) ->
+  wf_dense (ttensor_full v0 vadd vmul T) /\ dshape (ttensor_full v0 vadd vmul T) = tshape T /\
+  forall i, den_dense v0 (ttensor_full v0 vadd vmul T) i = den_t v0 v1 vadd vmul T i.
+Proof. exact (ttensor_full_correct V v0 v1 vadd vmul vsub vopp Vring). Qed.
+
+(* sum -> dense: densify the first part, add the others; parts of any kind whose own densification is right *)
+Theorem C01_sum : forall s (parts : list (part V)), parts <> [] -> Forall (part_ok V v0 v1 vadd vmul s) parts ->
+  exists R, sum_full v0 v1 vadd vmul parts = Some R /\ wf_dense R /\ dshape R = s /\
+    forall i, inb s i = true -> den_dense v0 R i = den_sum v0 vadd (map (part_den v0 v1 vadd vmul) parts) i.
+Proof. exact (sum_full_correct V v0 v1 vadd vmul vsub vopp Vring). Qed.
+
+Theorem C01_sum_parts : (forall T : dense V, wf_dense T -> part_ok V v0 v1 vadd vmul (dshape T) (PD T)) /\
+  (forall S : sparse V, Forall (fun j => inb (sshape S) j = true) (ssubs S) -> part_ok V v0 v1 vadd vmul (sshape S) (PS S)) /\
+  (forall K : ktensor V, part_ok V v0 v1 vadd vmul (kshape K) (PK K)) /\
+  (forall T : ttensor V, wf_dense (tcore T) -> length (dshape (tcore T)) = length (tfactors T) ->
+     part_ok V v0 v1 vadd vmul (tshape T) (PT T)).
+Proof. exact (conj (part_ok_dense V v0 v1 vadd vmul) (conj (part_ok_sparse V v0 v1 vadd vmul)
+        (conj (part_ok_kruskal V v0 v1 vadd vmul) (part_ok_tucker V v0 v1 vadd vmul vsub vopp Vring)))). Qed.
+End C01conv.
+
+Print Assumptions C01_tenmat.
+Print Assumptions C01_request_forms.
+Print Assumptions C01_sptenmat.
+Print Assumptions C01_kruskal_any_split.
+Print Assumptions C01_kruskal.
+Print Assumptions C01_tucker.
+Print Assumptions C01_sum.
+Print Assumptions C01_sum_parts.
+
+(* non-vacuity on a non-symmetric 2x3x4 instance: rows = modes [2;0] (non-involutive order), columns = [1] *)
+Example C01_example_tenmat :
+  let T := mkDense [2; 3; 4] (map Z.of_nat (seq 0 24)) in
+  option_map (fun M => (dshape (tm_data M), den_tenmat 0%Z M [1; 2; 3], tenmat_to_tensor 0%Z M)) (to_tenmat 0%Z T [2; 0] [1])
+    = Some ([8; 3], 23%Z, T) /\
+  tm_pos [2; 3; 4] [2; 0] [1] [1; 2; 3] = [7; 2] /\
+  gather_wrap_dims 3 (Some [1]) None (Some CycBC) = Some ([1], [0; 2]) /\
+  gather_wrap_dims 4 (Some [1]) None (Some CycFC) = Some ([1], [2; 3; 0]).
+Proof. repeat split; reflexivity. Qed.
+
+Example C01_example_sptenmat :
+  let S := mkSp [2; 3; 4] [[1; 2; 3]; [0; 1; 0]] [5; 7]%Z in
+  option_map (fun M => (stm_subs M, stm_shape M, sptenmat_to_sptensor M)) (to_sptenmat S [2; 0] [1])
+    = Some ([[7; 2]; [0; 1]], [8; 3], S).
+Proof. reflexivity. Qed.
+
+Example C01_example_kruskal :
+  let K := mkK [2; 3]%Z [[[1; 2]; [3; 4]]; [[5; 6]; [7; 8]; [9; 1]]; [[1; 0]; [2; 1]; [0; 3]; [1; 1]]]%Z in
+  ktensor_full_impl 0%Z Z.add Z.mul K = Some (ktensor_full_spec 0%Z 1%Z Z.add Z.mul K) /\
+  ktensor_full_at 0%Z Z.add Z.mul K 2 = ktensor_full_at 0%Z Z.add Z.mul K 1 /\
+  den_k 0%Z 1%Z Z.add Z.mul K [1; 2; 3] = 66%Z /\ min_split_dims [2; 3; 4] = Some 2.
+Proof. repeat split; reflexivity. Qed.
+
+Example C01_example_sum :
+  let T := mkDense [2; 3] [1; 2; 3; 4; 5; 6]%Z in
+  let S := mkSp [2; 3] [[1; 2]] [10%Z] in
+  let K := mkK [2%Z] [[[1]; [2]]; [[1]; [0]; [3]]]%Z in
+  sum_full 0%Z 1%Z Z.add Z.mul [PS S; PD T; PK K] = Some (mkDense [2; 3] [3; 6; 3; 4; 11; 28]%Z).
+Proof. reflexivity. Qed.
+
+Example C01_example_tucker :
+  let Tk := mkT (mkDense [2; 1; 2] [2; 3; 1; 4]%Z) [[[1; 2]; [3; 4]; [0; 5]]; [[5]; [7]]; [[1; 0]; [2; 1]; [0; 3]; [1; 1]]]%Z in
+  dshape (ttensor_full 0%Z Z.add Z.mul Tk) = [3; 2; 4] /\
+  den_dense 0%Z (ttensor_full 0%Z Z.add Z.mul Tk) [2; 1; 3] = den_t 0%Z 1%Z Z.add Z.mul Tk [2; 1; 3] /\
+  den_t 0%Z 1%Z Z.add Z.mul Tk [2; 1; 3] = 245%Z.
+Proof. repeat split; reflexivity. Qed.
